@@ -367,10 +367,65 @@ pub fn run(ctx: &Ctx) -> Report {
             }
         }
     });
+    // --- threshold sweeps: J5 approaching every multiple of pi along a magnitude ladder, and robots with one length
+    // parameter almost (not exactly) zero
+    let lad = crate::common::ladder::ladder(&["kinematics_impl.rs"]);
+    let lad_quick: Vec<f64> = if thorough { lad.clone() } else { lad.iter().cloned().step_by(2).collect() };
+    let srobots = sweep_robots();
+    let others: [[f64; 5]; 3] = [[0.3, 0.4, -0.2, 0.7, 1.1], [-2.4, -0.9, 0.8, -1.3, -2.5], [1.2, 0.5, -1.9, 3.0, 0.0]];
+    let ssizes = [srobots.len(), lad.len(), 4, others.len()];
+    let sn = par::product(&ssizes);
+    let srep = par::run(sn, |idx, r| {
+        let mut ix = [0usize; 4];
+        par::decode(idx, &ssizes, &mut ix);
+        let p = &srobots[ix[0]];
+        let d = lad[ix[1]] * if ix[2] % 2 == 0 { 1.0 } else { -1.0 };
+        let t5 = if ix[2] / 2 == 0 { d } else { PI + d };
+        let o = others[ix[3]];
+        let q = user_joints(p, &[o[0], o[1], o[2], o[3], t5, o[4]]);
+        let raw = RawPose::from_iso(&fkref::fk(p, &q));
+        r.states += 1;
+        for (entry, prev, j6) in entry_variants(&q) {
+            let c = Case { params: *p, class: PoseClass::Reachable, pose: raw, entry, prev, j6 };
+            let (fails, nsol) = eval(&c);
+            r.transitions += 1;
+            r.sig(format!("j5-ladder:{}:dof{}:{}", entry.name(), p.dof, nsol.min(1)));
+            for (key, dd) in fails {
+                r.fail(format!("{key}/j5-ladder"), n + idx, c.json(), dd);
+            }
+        }
+    });
+    rep.merge(srep);
+    let trobots = tiny_param_robots(&lad_quick, &[6, 5]);
+    let tsizes = [trobots.len(), others.len()];
+    let tn = par::product(&tsizes);
+    let trep = par::run(tn, |idx, r| {
+        let mut ix = [0usize; 2];
+        par::decode(idx, &tsizes, &mut ix);
+        let p = &trobots[ix[0]];
+        let o = others[ix[1]];
+        let q = user_joints(p, &[o[0], o[1], o[2], o[3], 0.9, o[4]]);
+        let raw = RawPose::from_iso(&fkref::fk(p, &q));
+        r.states += 1;
+        for (entry, prev, j6) in entry_variants(&q) {
+            let c = Case { params: *p, class: PoseClass::Reachable, pose: raw, entry, prev, j6 };
+            let (fails, nsol) = eval(&c);
+            r.transitions += 1;
+            r.sig(format!("tiny-parameter:{}:dof{}:{}", entry.name(), p.dof, nsol.min(1)));
+            for (key, dd) in fails {
+                r.fail(format!("{key}/tiny-parameter"), n + sn + idx, c.json(), dd);
+            }
+        }
+    });
+    rep.merge(trep);
+    rep.set("threshold_sweeps", json!({"ladder_values": lad.len(), "ladder_min": lad.first(), "ladder_max": lad.last(),
+        "j5_ladder_points": sn, "tiny_parameter_robots": trobots.len(),
+        "ladder": "13 mantissas per decade 1e-12..1e-2 plus neighbours / squares / roots of every small float literal of src/kinematics_impl.rs"}));
     rep.traces_validated = rep.transitions;
     rep.rule = "robots R (geometry x signs x offsets x dof 5/6 + presets) x poses {FK_ref(theta lattice incl. J5 = 0, pi, +-1e-9, +-thr/2, stretched elbow), \
                 scaled-out unreachable, wrist centre on J1 axis, NaN/inf/1e308/denormal in each pose component, un-normalised quaternion} x \
                 entry points x previous classes {solution, +-2pi, zeros, +-7pi, CONSTRAINT_CENTERED}; each answer is pushed through FK_ref; \
+                threshold sweeps: J5 = {0, pi} +- every ladder magnitude on 5 sweep robots x 3 postures, and robots with a1 / a2 / b / c4 = +- ladder magnitude; \
                 signature = (pose class, entry, dof, number of answers)".into();
     rep.set("axes", json!({"robots": robots.len(), "theta_axis_sizes": sizes_a, "special_per_robot": n_special, "entry_variants": 11}));
     rep.set("tolerances", json!({"pos_m": POS_TOL, "ang_rad": ANG_TOL}));
